@@ -4,3 +4,7 @@
 mod stubs;
 #[cfg(kani)]
 mod c32;
+#[cfg(kani)]
+mod c30;
+#[cfg(kani)]
+mod c30p;
